@@ -24,7 +24,7 @@ import numpy as np
 
 from ..kit import cnat, cnatl, cz, czl, cbool, clist, cq, cql, REPO
 
-HDR = ("From Coq Require Import ZArith List Bool QArith.\nFrom NV.Lib Require Import Harness.\nFrom NV.C12 Require Import Model.\nClose Scope Q_scope.\n")
+HDR = ("From Coq Require Import ZArith List Bool QArith.\nFrom NV.Lib Require Import Harness.\nFrom NV.C12 Require Import Model ModelLM.\nClose Scope Q_scope.\n")
 
 
 # ---------------------------------------------------------------- literals
@@ -1003,6 +1003,17 @@ def levelsets_section(ck):
             gi, gd = as_list(gi), as_list(gd)
         except AttributeError:
             dep = None
+        # correspondence with the Coq model of local_maxima / get_local_maxima (ModelLM.v; column refdim, exact integers):
+        # the full depth array (order of every maximum), not only its sign
+        lth = "None" if th == -np.inf else "(Some %s)" % cz(int(th))
+        if dep is None:
+            terms.append("lm_eqb (local_maxima %s %s %s) None" % (cedges(E), czl(col), lth))
+            meta.append(("local_maxima/model-vs-impl", "local_maxima(th=%s) raises on V=%d edges=%s column %s but the model returns depths" % (th, V, E, col), dict(rp, impl="raises")))
+        else:
+            terms.append("lm_eqb (local_maxima %s %s %s) (Some %s)" % (cedges(E), czl(col), lth, cnatl(dep)))
+            meta.append(("local_maxima/model-vs-impl", "local_maxima(refdim=%d, th=%s) on V=%d edges=%s column %s: impl depth %s" % (refdim, th, V, E, col, dep), dict(rp, depth=dep)))
+            terms.append("glm_eqb (get_local_maxima %s %s %s) (Some (%s, %s))" % (cedges(E), czl(col), lth, cnatl(gi), cnatl(gd)))
+            meta.append(("get_local_maxima/model-vs-impl", "get_local_maxima(refdim=%d, th=%s) on V=%d edges=%s column %s: impl idx %s depth %s" % (refdim, th, V, E, col, gi, gd), dict(rp, idx=gi, depth=gd)))
         if dep is None:
             if not any(above):
                 ck.fail("local_maxima/raises/no-vertex-above-threshold", "local_maxima(th=%s) raises AttributeError when no vertex reaches the threshold (field %s)" % (th, col), rp)
@@ -1294,6 +1305,9 @@ def levelsets_section(ck):
                     sig = "%s/idx-masked-argmax/basin-maximum-is-dtype-minimum" % name
                 ck.fail(sig, "%s(th=%s) on V=%d edges=%s gives %s for the %s field %s but %s for the same numbers as float64" % (name, th, V, E, got, dt, col, ref),
                         dict(rp, fn=name, got=got, float64_result=ref))
+            if name == "local_maxima" and isinstance(got, list) and all(isinstance(x, int) and x >= 0 for x in got):
+                terms.append("lm_eqb (local_maxima %s %s %s) (Some %s)" % (cedges(E), czl(col), "None" if th == -np.inf else "(Some %s)" % cz(int(th)), cnatl(got)))
+                meta.append(("local_maxima/model-vs-impl", "local_maxima(th=%s) on V=%d edges=%s %s field %s: impl depth %s" % (th, V, E, dt, col, got), dict(rp, depth=got)))
             if name == "local_maxima" and isinstance(got, list):
                 ismax = [above[i] and not any(above[j] and col[j] > col[i] for j in nb[i]) for i in range(V)]
                 if [x > 0 for x in got] != ismax:
